@@ -195,6 +195,17 @@ def check_zero(cfg, n, acc):
     fails = shape_fail(cfg, n, out)
     if not fails and (np.any(np.asarray(out) != 0) or tp.trace):
         fails.append(("zero", "%s returned %s and consumed %d RNG cells" % (desc(cfg, n), np.asarray(out).tolist(), len(tp.trace))))
+    if not fails and n:
+        # "identically 0" on every call: a caller adding a signal in place to one result must not change the next
+        try:
+            out += 5.0
+        except Exception:
+            pass
+        for f2 in (make(cfg), make(cfg)):
+            again = np.asarray(f2(n))
+            if np.any(again != 0):
+                fails.append(("zero-after-write", "%s returns %s after an earlier result was modified in place by the caller" % (desc(cfg, n), again.tolist())))
+                break
     return fails
 
 
